@@ -193,5 +193,31 @@ def own4(ctx, flavours):
                 ct = unwrap_payload(F.prov(cb).of_local(0)) if cb else None
                 ok = isinstance(ct, tuple) and ct[0] == 'call' and ct[1].endswith('::WeakNode::upgrade')
                 why = 'returns ' + pretty(ct)
+            if not ok and not clos:
+                # explicit forms: `let (n, _) = lookup?; Some(n.upgrade().unwrap())`, match / if-let with Some(upgrade(..)) arms
+                def alts(x):
+                    if isinstance(x, tuple) and x and x[0] == 'join':
+                        r = []
+                        for y in x[1]:
+                            r += alts(y)
+                        return r
+                    return [x]
+                kinds = []
+                for a in alts(t):
+                    a0 = a
+                    while isinstance(a0, tuple) and a0 and a0[0] == 'v':
+                        a0 = a0[1]
+                    if isinstance(a0, tuple) and a0 and a0[0] == 'aggr' and a0[1].endswith('Option::Some') and a0[2]:
+                        pl = unwrap_payload(a0[2][0])
+                        kinds.append('up' if isinstance(pl, tuple) and pl and pl[0] == 'call' and pl[1].endswith('::WeakNode::upgrade') else 'other:' + pretty(pl))
+                    elif isinstance(a0, tuple) and a0 and a0[0] == 'aggr' and a0[1].endswith('Option::None'):
+                        kinds.append('none')
+                    elif isinstance(a0, tuple) and a0 and a0[0] == 'call' and a0[1].endswith('from_residual'):
+                        kinds.append('none')      # `?` on the lookup: None propagates
+                    else:
+                        kinds.append('other:' + pretty(a0))
+                ok = 'up' in kinds and all(k in ('up', 'none') for k in kinds)
+                if ok:
+                    why = 'Some(upgrade(entry.0)) / None'
             out.append(Obl('OWN4', q, b['span'], 'lookup hands out the upgraded stored peer', ok, why))
     return out
